@@ -16,6 +16,20 @@ theorem backendB_flush_structure :
     Extracted.flushWaitsOnFlag = true ∧ Extracted.countsOnlyLogEvents = true ∧
     Extracted.flushOnlyValidLoggers = false := by decide
 
+/-- `sink_min_flush_interval` (C06 / F33): the model's call sites are the code's — the idle branch of `_poll` passes the
+    option (`flushGate`), the Flush event and `_exit` pass the literal 0 (`flushSinks`), the gate has the modelled shape
+    (0 = always; else `now - last > interval`, then `last := now`), there is no other call site, and the logger clean-up
+    flushes before it erases (F33 repaired: what `StartC` asks for when the interval is not 0) -/
+theorem backendB_flush_interval_structure :
+    Extracted.idleFlushPassesOption = true ∧ Extracted.flushIgnoresInterval = true ∧
+    Extracted.exitFlushIgnoresInterval = true ∧ Extracted.flushGateShape = true ∧
+    Extracted.flushCallSitesAllModelled = true ∧ Extracted.flushBeforeLoggerErase = true := by decide
+
+/-- for the code as extracted, `StartC`'s F33 clause holds for **every** interval -/
+theorem backendB_startC_f33 (c : Cfg) (h : c.flushBeforeLoggerErase = Extracted.flushBeforeLoggerErase) :
+    c.flushInterval = 0 ∨ c.flushBeforeLoggerErase = true :=
+  Or.inr (h.trans backendB_flush_interval_structure.2.2.2.2.2)
+
 /-- C06 (other threads) for the code as extracted -/
 theorem C06_extracted (s0 : BSt) (h0 : StartF s0) (hg : s0.cfg.grace ≠ 0)
     (hc : s0.cfg.refreshAfterSample = Extracted.refreshAfterSample) (ops : List Op)
